@@ -5,5 +5,7 @@ root=os.path.dirname(os.path.dirname(os.path.abspath(__file__)))
 all=[]
 for f in sorted(glob.glob(os.path.join(root,'findings','*.json'))):
     all+=json.load(open(f))
-json.dump(all,open(os.path.join(root,'known_findings.json'),'w'),indent=1)
+tmp=os.path.join(root,'.known_findings.json.%d.tmp'%os.getpid())
+json.dump(all,open(tmp,'w'),indent=1)
+os.replace(tmp,os.path.join(root,'known_findings.json'))  # atomic: checks may be reading it
 print(len(all),'entries')
